@@ -134,6 +134,20 @@ def validate_config(data, validator_list = None):
     validator.validate(raise_exception=True)
 
 
+class _ConfigLoader(yaml.SafeLoader):
+    """
+    Loads values that look like a date or a time as the text that is written in
+    the file.  ReBench has no use for date objects: the values end up on command
+    lines and in the data file, and date objects cannot be recorded there.
+    """
+
+
+_ConfigLoader.yaml_implicit_resolvers = {
+    first_char: [(tag, regexp) for tag, regexp in resolvers
+                 if tag != 'tag:yaml.org,2002:timestamp']
+    for first_char, resolvers in yaml.SafeLoader.yaml_implicit_resolvers.items()}
+
+
 def load_config(file_name):
     """
     Load the file, verify that it conforms to the schema,
@@ -142,7 +156,7 @@ def load_config(file_name):
     config_data = None
     try:
         with open(file_name, 'r') as conf_file:  # pylint: disable=unspecified-encoding
-            config_data = yaml.safe_load(conf_file)
+            config_data = yaml.load(conf_file, Loader=_ConfigLoader)
     except IOError as err:
         if err.errno == 2:
             assert err.strerror == "No such file or directory"
